@@ -72,7 +72,7 @@ func c05Check(c scriptCase) []rep.Finding { return lockstep(c, nil).fs }
 
 func init() {
 	p := register(&Prop{ID: "C05", Level: "model_checking",
-		Rule: "explicit-state exploration of the real interpreter in lockstep with a reference model of the BSV script rules (certified on all 1438 node vectors of script_tests.json, verdict and error name): after every instruction the AfterStep snapshot (data and alt stack) must equal the reference's, and the final verdict must agree. Spaces: (1) operand grid: every opcode byte 0x00..0xff x every tuple of edge operands (arity 1 and 2 over the full edge set, arity 3 over a 12-value subset; shift counts 0..8n+1 for operand lengths 0..3) x both eras x covering flag sets, and all 512 subsets of the nine non-signature flags for the flag-sensitive opcodes, CLTV/CSV against 7x3 transaction contexts; (2) every byte string of length<=2 (quick) / <=3 (thorough) as locking script x 4 seed unlocking scripts x 2 eras (+MINIMALDATA); (3) breadth-first program exploration with canonical-state deduplication over a 15-symbol control-flow alphabet (incl. a non-minimal push) (depth 7/8) and a 40-symbol mixed alphabet (depth 3/4) from empty and seeded stacks; (4) P2SH / limit templates. Scripts whose execution reaches a signature opcode are left to C06. states = distinct canonical machine states (stacks, condition stack, era+flags) seen in snapshots; transitions = instructions executed in lockstep; traces = executions compared",
+		Rule: "explicit-state exploration of the real interpreter in lockstep with a reference model of the BSV script rules (certified on all 1438 node vectors of script_tests.json, verdict and error name): after every instruction the AfterStep snapshot (data and alt stack) must equal the reference's, and the final verdict must agree. Spaces: (1) operand grid: every opcode byte 0x00..0xff x every tuple of edge operands (arity 1 and 2 over the full edge set, arity 3 over a 12-value subset; shift counts 0..8n+1 for operand lengths 0..3) x both eras x covering flag sets, and all 512 subsets of the nine non-signature flags for the flag-sensitive opcodes, CLTV/CSV against 7x3 transaction contexts; (2) every byte string of length<=2 (quick) / <=3 (thorough) as locking script x 4 seed unlocking scripts x 2 eras (+MINIMALDATA); (3) breadth-first program exploration with canonical-state deduplication over a 15-symbol control-flow alphabet (incl. a non-minimal push) (depth 7/8) and a 51-symbol mixed alphabet (stack, alt, splice, bitwise, shift, arithmetic, hash opcodes, 8 pushes) (depth 3/4) from empty and seeded stacks; (4) P2SH / limit templates. Scripts whose execution reaches a signature opcode are left to C06. states = distinct canonical machine states (stacks, condition stack, era+flags) seen in snapshots; transitions = instructions executed in lockstep; traces = executions compared",
 	})
 	NewSpace(p, "grid", c05Check)
 	NewSpace(p, "bytes", c05Check)
@@ -249,7 +249,8 @@ func mixAlphabet() [][]byte {
 		0x6b, 0x6c, // alt
 		0x7e, 0x7f, 0x80, 0x81, 0x82, // splice
 		0x83, 0x84, 0x85, 0x86, 0x87, 0x98, 0x99, // bitwise / shift
-		0x8b, 0x8f, 0x93, 0x94, 0x95, 0x96, 0x97, 0x9f, 0xa4, 0xa5} { // arithmetic
+		0x8b, 0x8f, 0x93, 0x94, 0x95, 0x96, 0x97, 0x9f, 0xa4, 0xa5, // arithmetic
+		0xa6, 0xa7, 0xa8, 0xa9, 0xaa} { // hashes (two live results must not share storage)
 		syms = append(syms, []byte{b})
 	}
 	for _, d := range [][]byte{{}, {0x01}, {0x02}, {0x81}, {0x80}, {0x00, 0x01}, {0xff, 0xff, 0xff, 0x7f}, {0x09}} {
